@@ -217,12 +217,6 @@ static void compoundSpaces(vf::Runner& R, bool th) {
       } catch (Exception& e) { c.tag("compound:operation-rejected"); return; }
       c.site("audit");
       auditCompound(kind, *d, c, ctx);
-      // the continuous components are discretised distributions in their own right
-      if (kind == C_INV_GAMMA) {
-        auto* iv = dynamic_cast<InvariantMixedDiscreteDistribution*>(d.get());
-        size_t kn = iv->variableSubDistribution().getNumberOfCategories();
-        if (d->getNumberOfCategories() != kn + 1) c.fail("compound|invariant-class-count-is-not-nested-count-plus-one|invariant", ctx + " nested " + str(kn) + " total " + str(d->getNumberOfCategories()));
-      }
       c.nontrivial(); c.tag(std::string("compound:") + ckClass(kind));
       if (idx % 2111 == 5) c.sample(ctx + " -> k=" + str(d->getNumberOfCategories()) + " probs=" + vf::vstr(d->getProbabilities()));
     }, 0.2, 4);
